@@ -208,6 +208,7 @@ class StratRec:
         self.sym_idx = {s: i + 1 for i, s in enumerate(SYMS[:item['nsym']])}
         self.tick = item['policy'].get('tick', DEFAULT['tick'])
         self.fills_in_step = 0
+        self.cm = {}              # symbol -> minute of the 1m candle being matched (from the partial candle), or absent
         self.rec = S.Recorder()
 
     # encoders
@@ -250,7 +251,7 @@ class StratRec:
                       sl=self.rows(strat.stop_loss), tp=self.rows(strat.take_profit),
                       hl=strat.stop_loss is not None, ht=strat.take_profit is not None)
         elif kind == 'hook':
-            self.emit('hook', s=s, n=name, q=q, o=getattr(order, '_v_ord', 0))
+            self.emit('hook', s=s, n=name, q=q, o=getattr(order, '_v_ord', 0), t=int((strat.time - S.T0) // S.MIN))
         elif kind == 'after':
             self.emit('after', s=s, i=strat.index, q=q, sce=bool(strat.should_cancel_entry()),
                       act=[self.order_rec(i) for i in self.active(strat.symbol)],
@@ -290,7 +291,8 @@ class StratRec:
             pos = store.positions.storage['%s-%s' % (self_.exchange, self_.symbol)]
             s = me.sym_idx[self_.symbol]
             me.emit('fillb', s=s, o=self_._v_ord, side=self_.side, type=self_.type, q=me.Q(abs(self_.qty)), p=me.P(self_.price),
-                    ro=bool(self_.reduce_only), qb=me.Q(pos.qty), t=int((store.app.time - S.T0) // S.MIN))
+                    ro=bool(self_.reduce_only), qb=me.Q(pos.qty), t=int((store.app.time - S.T0) // S.MIN),
+                    cm=me.cm.get(self_.symbol, -1))
             try:
                 return orig_exec(self_, *a, **k)
             finally:
@@ -306,9 +308,52 @@ class StratRec:
 
         Order.__init__, Order.execute, Order.cancel = init, execute, cancel
 
+        # the independent clock of C06: which 1m candles are being matched (inputs of the two matching functions) and
+        # which of them the price is in when an order is about to fill (timestamp of the partial candle)
+        from jesse.modes import backtest_mode as bm
+        o_step, o_fast, o_part = bm._simulate_price_change_effect, bm._simulate_price_change_effect_multiple_candles, \
+            bm._update_all_routes_a_partial_candle
+        self._orig_bm = (o_step, o_fast, o_part)
+
+        def window(cs, symbol):
+            lo, hi = [], []
+            for i, c in enumerate(cs):
+                l, h = float(c[4]), float(c[3])
+                if i > 0:                       # range extended to the previous close
+                    l, h = min(l, float(cs[i - 1][2])), max(h, float(cs[i - 1][2]))
+                lo.append(me.P(l))
+                hi.append(me.P(h))
+            me.cm.pop(symbol, None)
+            me.emit('match', s=me.sym_idx[symbol], t0=int((int(cs[0][0]) - S.T0) // S.MIN), lo=lo, hi=hi)
+
+        def step(real_candle, exchange, symbol):
+            window([real_candle], symbol)
+            try:
+                return o_step(real_candle, exchange, symbol)
+            finally:
+                me.cm.pop(symbol, None)
+
+        def fast(candles, exchange, symbol):
+            window(list(candles), symbol)
+            try:
+                return o_fast(candles, exchange, symbol)
+            finally:
+                me.cm.pop(symbol, None)
+
+        def part(exchange, symbol, candle):
+            me.cm[symbol] = int((int(candle[0]) - S.T0) // S.MIN)
+            return o_part(exchange, symbol, candle)
+
+        bm._simulate_price_change_effect, bm._simulate_price_change_effect_multiple_candles = step, fast
+        bm._update_all_routes_a_partial_candle = part
+
     def uninstall(self):
         from jesse.models import Order
         Order.__init__, Order.execute, Order.cancel = self._orig
+        if getattr(self, '_orig_bm', None):
+            from jesse.modes import backtest_mode as bm
+            (bm._simulate_price_change_effect, bm._simulate_price_change_effect_multiple_candles,
+             bm._update_all_routes_a_partial_candle) = self._orig_bm
 
     def finish(self, out):
         # final tags: submitted_via is set after Order.__init__ returns
@@ -469,6 +514,12 @@ def gen_items(seed, count, kinds, n_minutes=240):
             pol.update(base=100, tick=1.0, qtys=(1, 2), max_entry_rows=2, max_exit_rows=2, exits_in='on_open', allow_short=False,
                        p_edit=0.25, p_edit_reduced=0.5, p_edit_increased=0.5, p_edit_entry=0.0)
             it.update(spot=True, fee=[0, 1])
+        elif kind == 'fast2':      # fast simulator, two symbols, all timeframes > 1m: resting orders fill mid-chunk
+            tf = rng.choice(['5m', '15m'])
+            pol.update(base=100, tick=1.0, qtys=(1, 2), max_entry_rows=2, max_exit_rows=2, exits_in=rng.choice(['go', 'on_open']),
+                       entry_offsets=(-1, -2, -3, 1, 2, 3), entry_every=rng.choice([3, 4]), long_phase=1, short_phase=2,
+                       sl_dist=(3, 8), tp_dist=(2, 7), p_edit=0.2, resize_always=True)
+            it.update(fast=True, nsym=2, tf=tf, n=(450 if tf == '5m' else 900), walk=dict(step=1, wick=1))
         elif kind == 'fast':       # the fast simulator drives the same strategy code
             pol.update(base=100, tick=1.0, qtys=(1, 2), max_entry_rows=2, max_exit_rows=2, exits_in=rng.choice(['go', 'on_open']),
                        p_edit=0.2)
